@@ -47,16 +47,43 @@ class Clock:
         self.now = float(t)
 
 
+class SimTask(asyncio.Task):
+    """Task with a seeded hash: sets of tasks (asyncio.wait) iterate in an order the seed decides."""
+
+    _pending_hash = 0
+
+    def __hash__(self):
+        try:
+            return self._sim_hash
+        except AttributeError:
+            # Task.__init__ registers the task in a WeakSet before the factory can set the attribute
+            self._sim_hash = SimTask._pending_hash
+            return self._sim_hash
+
+
+class SimFuture(asyncio.Future):
+    _pending_hash = 0
+
+    def __hash__(self):
+        try:
+            return self._sim_hash
+        except AttributeError:
+            self._sim_hash = SimFuture._pending_hash
+            return self._sim_hash
+
+
 class SimLoop(asyncio.BaseEventLoop):
-    def __init__(self, clock=None):
+    def __init__(self, clock=None, hash_salt=0):
         super().__init__()
+        self._hash_salt = hash_salt
+        self._hash_counter = 0
         self._clock = clock or Clock()
         self._selector = _StubSelector(self)
         self.unhandled = []  # exception-handler contexts (not part of the digest)
         self.iterations = 0
         self.set_exception_handler(self._on_exception)
         self._task_counter = 0
-        self.set_task_factory(self._task_factory)
+        self.set_task_factory(self._make_task)
 
     # -- BaseEventLoop plumbing -------------------------------------------------
     def time(self):
@@ -72,10 +99,23 @@ class SimLoop(asyncio.BaseEventLoop):
         exc = context.get("exception")
         self.unhandled.append((context.get("message"), type(exc).__name__ if exc else None, str(exc) if exc else None))
 
-    def _task_factory(self, loop, coro, context=None):
+    def _make_task(self, loop, coro, context=None):
         # explicit names: the default Task-<n> counter is process-global and would leak across runs
         self._task_counter += 1
-        return asyncio.Task(coro, loop=loop, name=f"sim-task-{self._task_counter}", context=context)
+        SimTask._pending_hash = h = self._next_hash()
+        t = SimTask(coro, loop=loop, name=f"sim-task-{self._task_counter}", context=context)
+        t._sim_hash = h
+        return t
+
+    def _next_hash(self):
+        self._hash_counter += 1
+        return ((self._hash_counter + self._hash_salt) * 0x9E3779B97F4A7C15) & 0x3FFFFFFFFFFFFFFF
+
+    def create_future(self):
+        SimFuture._pending_hash = h = self._next_hash()
+        f = SimFuture(loop=self)
+        f._sim_hash = h
+        return f
 
     def run_in_executor(self, executor, func, *args):
         # no real threads: the job runs now, its result is delivered in the next iteration
